@@ -2,6 +2,7 @@
 # tools/run_all.sh [tier]: runs every registered check, prints one line each.
 T=${1:-quick}
 cd "$(dirname "$(readlink -f "$0")")/.."
+mkdir -p out
 for id in $(python3 -c "import json;print(' '.join(c['property_id'] for c in json.load(open('MANIFEST.json'))['checks']))"); do
   s=$(date +%s)
   ./check $id --tier $T > out/run_all_$id.log 2>&1
